@@ -27,7 +27,7 @@ CLAIMS = {
              "field that a tabled completion method clears, or captured by a clearing callback on every path; the "
              "counting waits clear at zero; event-type tokens and namedtuple indices agree between poster and "
              "dispatcher; QueuedEvent wait/clear typestate. Lost wake-ups of arbitrary user handlers and the "
-             "relative timing of clears are not decided. Also: the handlers' result reaches the completion callback as ev_result, stored before the callback is queued. Also: sufficiency of the boolean abort and the relay merge (nothing but type and result decide); a clearing callback whose registration key is stored per wait is removed only through that key and clears its own queue on every path; the game-end and ball-end stop loops stop every matching mode (no further condition, whole collection, no early exit, bookkeeping before stop()). Also: the queue-event handler loop is never left early (every registered handler is asked before the queue decides); the relay/queue dispatch of _run_handlers merges kwargs and evaluates conditions the same way as the plain dispatch; game and ball stop loops select exactly the modes flagged to stop, with their book-keeping done before the stop is requested. Also: Mode.start touches the queue of the starting event only once the request is accepted (after every refusal exit). Also: the queue-event runner evaluates a handler's condition at that handler's turn, on the merged kwargs; replace_handler registers with the priority it was given. Also: every returning path of the queue-event runner fires the completion callback (also when the handlers vanished before its first step: F21, fixed); the handler list is re-sorted after every insertion (shared with C01). Also: no loop over the stop callbacks (or any walked container of the analysed functions) changes the container it walks (generic ITERMUT-0). Also: the relay player forgets the waits of a context after releasing them.",
+             "relative timing of clears are not decided. Also: the handlers' result reaches the completion callback as ev_result, stored before the callback is queued. Also: sufficiency of the boolean abort and the relay merge (nothing but type and result decide); a clearing callback whose registration key is stored per wait is removed only through that key and clears its own queue on every path; the game-end and ball-end stop loops stop every matching mode (no further condition, whole collection, no early exit, bookkeeping before stop()). Also: the queue-event handler loop is never left early (every registered handler is asked before the queue decides); the relay/queue dispatch of _run_handlers merges kwargs and evaluates conditions the same way as the plain dispatch; game and ball stop loops select exactly the modes flagged to stop, with their book-keeping done before the stop is requested. Also: Mode.start touches the queue of the starting event only once the request is accepted (after every refusal exit). Also: the queue-event runner evaluates a handler's condition at that handler's turn, on the merged kwargs; replace_handler registers with the priority it was given. Also: every returning path of the queue-event runner fires the completion callback (also when the handlers vanished before its first step: F21, fixed); the handler list is re-sorted after every insertion (shared with C01). Also: no loop over the stop callbacks (or any walked container of the analysed functions) changes the container it walks (generic ITERMUT-0). Also: the relay player forgets the waits of a context after releasing them. Also: the completion callback fires at most once on any path of the queue runner.",
         technique="taint of **kwargs into post_queue; CFG must-pass/dominance/facts for wait-clear typestate; table agreement",
         ref="4/C02"),
     "C03": dict(
@@ -117,7 +117,7 @@ CLAIMS = {
              "permanently while being loaded is removed (by stored keys or by callback) when the mode unloads it; "
              "enable/disable idempotence guards read the state they write; active_modes is mutated only by "
              "set_mode_state and sorted by (priority, name) descending after every change. Registry equality for "
-             "arbitrary user mode code and overlapping requests beyond the flag guards are not decided. Also: switch handlers are removed by key; add_mode_event_handler forwards kwargs and returns the key; clear_context loops act on their records. Also: every non-empty result of a start method is recorded as a stop method and every recorded stop method runs unconditionally. Also: the returned EventHandlerKey carries the parsed event name and the stored key; removal by key is exact; mode delays live on the mode's own DelayManager; clear_context never removes handlers by method or by event. Also: the start queue a mode parks is released and forgotten when it has stopped (shared with C02); every clean-up step of a device_removed_from_mode is unconditional or guarded only by the presence of the object it acts on. Also: a config player plays for a mode only while that mode is active, under the mode's own context. Also: the game waits for every active game mode when it stops, also one already stopping. Also: removal of a key list removes every key of the list through the by-key removal. Also: a mode device that owns a delay manager and arms delays clears them on every path of its unload (tabled: timer, ball save, drop target bank with reasons; logic block by required name) - F23 and F24 found by this rule and fixed. Also: a sequence shot drops its sequences in progress on unload. Also: every accepted start stores the callback of that request (no callback survives into a later start).",
+             "arbitrary user mode code and overlapping requests beyond the flag guards are not decided. Also: switch handlers are removed by key; add_mode_event_handler forwards kwargs and returns the key; clear_context loops act on their records. Also: every non-empty result of a start method is recorded as a stop method and every recorded stop method runs unconditionally. Also: the returned EventHandlerKey carries the parsed event name and the stored key; removal by key is exact; mode delays live on the mode's own DelayManager; clear_context never removes handlers by method or by event. Also: the start queue a mode parks is released and forgotten when it has stopped (shared with C02); every clean-up step of a device_removed_from_mode is unconditional or guarded only by the presence of the object it acts on. Also: a config player plays for a mode only while that mode is active, under the mode's own context. Also: the game waits for every active game mode when it stops, also one already stopping. Also: removal of a key list removes every key of the list through the by-key removal. Also: a mode device that owns a delay manager and arms delays clears them on every path of its unload (tabled: timer, ball save, drop target bank with reasons; logic block by required name) - F23 and F24 found by this rule and fixed. Also: a sequence shot drops its sequences in progress on unload. Also: every accepted start stores the callback of that request (no callback survives into a later start). Also: the tilt mode removes exactly the (switch tag, callback) pairs it registered.",
         technique="event-chain extraction; CFG must-pass typestate; who-may-write; sibling agreement over ConfigPlayer/ModeDevice subclasses",
         ref="4/C07"),
     "C05": dict(
@@ -138,7 +138,7 @@ CLAIMS = {
              "is only added to or reset after the hand-over; the hand-over requests exactly the scheduled number; a mode "
              "end flushes it); the wait for the ball to leave is unbounded only for a player-controlled request on a "
              "hand-operated device and otherwise bounded by the eject timeout, as are the confirm waits. "
-             "Liveness in general and cancellation races are not decided. Also: every list of waiters (futures) of the ball-device classes is resolved completely and emptied only afterwards; wake-up flags are consumed right after the wake-up; exactly the timed-out incoming balls are removed and reported lost. Also: a request for balls split over several sources adds up to the requested total; waiter lists are swapped out before their futures are woken; BallDevice decides by its own book-keeping and never by the physical count read-back. Also: BallDevice.eject makes one request per requested ball and never leaves its loop early; a handler coroutine that cancels its own task awaits nothing afterwards; the ball searches over sources / targets say no only after every candidate was asked. Also: every site that fills a request's eject time-out scales the configured ms value to seconds. Also: every attempt drives the mechanism (each coil ejector's eject_one_ball reaches a coil call on every returning path, the event ejector posts every event); Playfield.add_ball asks for the requested number of balls on the direct and on the player-controlled route.",
+             "Liveness in general and cancellation races are not decided. Also: every list of waiters (futures) of the ball-device classes is resolved completely and emptied only afterwards; wake-up flags are consumed right after the wake-up; exactly the timed-out incoming balls are removed and reported lost. Also: a request for balls split over several sources adds up to the requested total; waiter lists are swapped out before their futures are woken; BallDevice decides by its own book-keeping and never by the physical count read-back. Also: BallDevice.eject makes one request per requested ball and never leaves its loop early; a handler coroutine that cancels its own task awaits nothing afterwards; the ball searches over sources / targets say no only after every candidate was asked. Also: every site that fills a request's eject time-out scales the configured ms value to seconds. Also: every attempt drives the mechanism (each coil ejector's eject_one_ball reaches a coil call on every returning path, the event ejector posts every event); Playfield.add_ball asks for the requested number of balls on the direct and on the player-controlled route. Also: every player-controlled eject of a device with an ejector also waits for tilt; each delayed delivery of saved balls is a delay of its own.",
         technique="typestate pairing on the coroutine CFG (trackers, locks, futures); guard analysis; boolean-event handler return check",
         ref="4/C05"),
     "C04": dict(
@@ -170,7 +170,7 @@ CLAIMS = {
              "[0, balls known], the ball ends exactly on the positive-to-zero transition or on request; the end-ball flag "
              "is cleared before anything is awaited; players are created only on the non-vetoed add path gated by "
              "ending / max players / ball 1; machine.game is set during the run and cleared on stop. Requests arriving "
-             "inside queue events are only decided as far as these ordering rules go. Also: each game resets the reused mode object's state before anything is awaited; configured end_ball/end_game events are wired to methods that request the end; the wait for the first player is always preceded by a set or a request and released by a completed add. Also: the game end stops and waits for every active game mode (no further condition, whole collection, noted as awaited before stop() is called). Also: an async mode's task is created in _started and cancelled in _stopped and on machine stop; the task's end stops the mode. Also: the drain chain (drain/trough-tagged devices -> ball_drain relay with the unclaimed balls -> Game.ball_drained through the clamping setter, listener registered per ball before the first ball counts); nobody outside the game mode stops the game mode object directly. Also: a request to end the game or the ball is never swallowed (end_game marks and asks for the ball end on every path, end_ball always releases the wait). Also: every game evaluates balls_per_game and max_players afresh before its first turn. Also: a slam tilt marks the game whenever there is one.",
+             "inside queue events are only decided as far as these ordering rules go. Also: each game resets the reused mode object's state before anything is awaited; configured end_ball/end_game events are wired to methods that request the end; the wait for the first player is always preceded by a set or a request and released by a completed add. Also: the game end stops and waits for every active game mode (no further condition, whole collection, noted as awaited before stop() is called). Also: an async mode's task is created in _started and cancelled in _stopped and on machine stop; the task's end stops the mode. Also: the drain chain (drain/trough-tagged devices -> ball_drain relay with the unclaimed balls -> Game.ball_drained through the clamping setter, listener registered per ball before the first ball counts); nobody outside the game mode stops the game mode object directly. Also: a request to end the game or the ball is never swallowed (end_game marks and asks for the ball end on every path, end_ball always releases the wait). Also: every game evaluates balls_per_game and max_players afresh before its first turn. Also: a slam tilt marks the game whenever there is one. Also: each poll of the empty-playfield wait starts with a fresh flag.",
         technique="regular event-trace abstraction + language inclusion (product construction); CFG dominance/guards; who-may-write",
         ref="4/C06"),
     "C09": dict(
@@ -232,7 +232,7 @@ CLAIMS = {
              "record contains every key the loader reads, only persistent variables are written, expired or malformed "
              "records are skipped; FileManager.save is called only by the writer thread. Known finding F6b: nothing waits "
              "for the daemon writer thread at shutdown. Crash points (no fsync reasoning) and value equality after reload "
-             "are not decided. Also: the writer loop runs while the machine is not stopped and writes exactly when the dirty flag was raised; every well-formed, unexpired record is restored and a record is skipped only when malformed or expired. Also: the record fields are updated before the disk write is requested and expiry = now + expire_secs; the temp file location and per-target name; the YAML writer and reader open with the same explicitly named text encoding; the writer threads are told to stop only in MachineController.shutdown, which _do_stop reaches after the `shutdown` event was posted and the queue drained. Also: the shutdown flush depends on nothing but the dirty flag (a busy file manager is waited for); every expiry deadline is wall-clock now + expire_secs and the loader is handed the wall clock. Also: the handler of a failed write only logs (nothing in it can raise and end the writer thread); loading converts exactly maps to dict and sequences to list. Also: every normal way out of the writer thread passes the shutdown flush test; a restarted expiry deadline is written to disk on every path. Also: an operator setting's variable is marked persistent before its value is set (the set is what writes). Also: the finished temp file replaces the target in one step (no remove / rename of the target); a removed machine variable is removed on disk by rewriting the whole set. Also: a removal by pattern rewrites the persisted set on every path; a save is refused only for an unknown file type.",
+             "are not decided. Also: the writer loop runs while the machine is not stopped and writes exactly when the dirty flag was raised; every well-formed, unexpired record is restored and a record is skipped only when malformed or expired. Also: the record fields are updated before the disk write is requested and expiry = now + expire_secs; the temp file location and per-target name; the YAML writer and reader open with the same explicitly named text encoding; the writer threads are told to stop only in MachineController.shutdown, which _do_stop reaches after the `shutdown` event was posted and the queue drained. Also: the shutdown flush depends on nothing but the dirty flag (a busy file manager is waited for); every expiry deadline is wall-clock now + expire_secs and the loader is handed the wall clock. Also: the handler of a failed write only logs (nothing in it can raise and end the writer thread); loading converts exactly maps to dict and sequences to list. Also: every normal way out of the writer thread passes the shutdown flush test; a restarted expiry deadline is written to disk on every path. Also: an operator setting's variable is marked persistent before its value is set (the set is what writes). Also: the finished temp file replaces the target in one step (no remove / rename of the target); a removed machine variable is removed on disk by rewriting the whole set. Also: a removal by pattern rewrites the persisted set on every path; a save is refused only for an unknown file type. Also: after the dirty flag was cleared every path of the writer loop reaches the write (no snapshot, empty or not, is skipped).",
         technique="CFG pairing on normal and exceptional paths; order/dominance; dead-guard check; record-key table agreement",
         ref="4/C15"),
     "C16": dict(
@@ -246,7 +246,7 @@ CLAIMS = {
              "and name access add their own subscription, a failed evaluation still subscribes to everything it read; the "
              "events placeholders wait for have the prefix the owners post (player_, machine_var_) and exist in the game; "
              "the config-player subscription loop re-evaluates, re-subscribes with the same binding and ends only on "
-             "cancellation or shutdown. Semantic equivalence over all expressions and freshness over all histories are not decided. Also: boolean operators fold left to right, chained comparisons are refused not truncated, tuple and subscript forms use their evaluated parts, subscriptions of sub-evaluations inside loops are accumulated, failures are never swallowed and are TemplateEvalErrors while subscribing; settings are read and subscribed through the machine variable they live in and every *_placeholder subscription re-arms itself; producer side: set_machine_var stores the new value on every path before posting machine_var_<name>, guarded only by the computed change; the DeviceMonitor setter stores on every path, then notifies under the public attribute name exactly when the attribute already had a different value, and the notification resolves every future filed under (device, attribute) - the key subscribe_attribute files under - before forgetting them. Also: conditions of conditional handlers are evaluated in the handler's own iteration of the dispatch loop; a failed, incomplete or empty evaluation yields the template's default on the plain and the subscribing path, a missing variable is passed on only in strict mode. Also: a setting placeholder takes its value from the settings controller's get_setting_value; PlayerPlaceholder subscriptions are woken by player_turn_started and player_turn_ended. Also: a text with several placeholders is woken by the first of its subscriptions; item and attribute access of a numbered player use the same index, checked against the list length. Also: a player variable posts its change event for every simple value (isinstance) that changed or is new. Also: no function on the evaluation path that is memoised by argument value answers from changeable state (generic MEMO-0). Also: enable() / disable() wake the subscribers of `enabled` whichever way the state is stored (in the method, or in the setter on every path). Also: machine.time subscriptions wake when the field changes (sleep expressions compared as linear forms).",
+             "cancellation or shutdown. Semantic equivalence over all expressions and freshness over all histories are not decided. Also: boolean operators fold left to right, chained comparisons are refused not truncated, tuple and subscript forms use their evaluated parts, subscriptions of sub-evaluations inside loops are accumulated, failures are never swallowed and are TemplateEvalErrors while subscribing; settings are read and subscribed through the machine variable they live in and every *_placeholder subscription re-arms itself; producer side: set_machine_var stores the new value on every path before posting machine_var_<name>, guarded only by the computed change; the DeviceMonitor setter stores on every path, then notifies under the public attribute name exactly when the attribute already had a different value, and the notification resolves every future filed under (device, attribute) - the key subscribe_attribute files under - before forgetting them. Also: conditions of conditional handlers are evaluated in the handler's own iteration of the dispatch loop; a failed, incomplete or empty evaluation yields the template's default on the plain and the subscribing path, a missing variable is passed on only in strict mode. Also: a setting placeholder takes its value from the settings controller's get_setting_value; PlayerPlaceholder subscriptions are woken by player_turn_started and player_turn_ended. Also: a text with several placeholders is woken by the first of its subscriptions; item and attribute access of a numbered player use the same index, checked against the list length. Also: a player variable posts its change event for every simple value (isinstance) that changed or is new. Also: no function on the evaluation path that is memoised by argument value answers from changeable state (generic MEMO-0). Also: enable() / disable() wake the subscribers of `enabled` whichever way the state is stored (in the method, or in the setter on every path). Also: machine.time subscriptions wake when the field changes (sleep expressions compared as linear forms). Also: a shot reads its old state and state name before it stores the new state and announces both afterwards.",
         technique="table oracle against CPython operator semantics; evaluator contract; def-use flow of subscription lists on the CFG",
         ref="4/C16"),
     "C17": dict(
@@ -260,7 +260,7 @@ CLAIMS = {
              "runs before completion events; pause/advance/step_back cancel the pending step first; LightPlayer colours under "
              "key=full_context and clear_context/remove use the same key and record, the light's removal scans are left early "
              "only at the key; ShowPlayer and CoilPlayer clear what they started. k-th step instants under speed updates, "
-             "token substitution and concurrent shows on one light are not decided. Also: played/looped/completed/stopped events are queued and posted at their moments; start-step table and negative index wrap; the light player honours the stop colour and forwards the step's start time. Also: advance() / step_back() cancel the pending step, rebase the clock and move the index before they run the step (once, last). Also: a per-show token cache is keyed by the token values (CACHE-17); the events list of a step is fresh per play; replace_or_advance_show keeps or advances the running instance only when it has already run a step and stands exactly at / one step before the requested step (SYNC-17); RunningShow.update applies every value that is not None (UPD-17). Also: every play parameter reaches the RunningShow under its own name on every route (Show.play, play_show_with_config, replace_or_advance_show, ShowPlayer._play/_queue, ShowConfig field order), defaults replace only None; a replaced running show is stopped on every path that starts its successor; the show player's action table and instance actions; config players change handed settings only in a private copy. Also: the show-pool pass-throughs hand every parameter on under its own name. Also: at its start a show runs its start callback (stopping the replaced show) before its first step; each key's fade-out entry has a clean-up timer of its own. Also: a show started by a condition is stopped by it under the same key, instance dict and show name. Also: the light's hardware-update shortcuts read the remembered fade correctly (shared with C09), so stopped shows leave the hardware as they found it. Also: a show step hands its nominal time to the players it drives. Also: a fade-out starts from what the removed key showed (shared with C09).",
+             "token substitution and concurrent shows on one light are not decided. Also: played/looped/completed/stopped events are queued and posted at their moments; start-step table and negative index wrap; the light player honours the stop colour and forwards the step's start time. Also: advance() / step_back() cancel the pending step, rebase the clock and move the index before they run the step (once, last). Also: a per-show token cache is keyed by the token values (CACHE-17); the events list of a step is fresh per play; replace_or_advance_show keeps or advances the running instance only when it has already run a step and stands exactly at / one step before the requested step (SYNC-17); RunningShow.update applies every value that is not None (UPD-17). Also: every play parameter reaches the RunningShow under its own name on every route (Show.play, play_show_with_config, replace_or_advance_show, ShowPlayer._play/_queue, ShowConfig field order), defaults replace only None; a replaced running show is stopped on every path that starts its successor; the show player's action table and instance actions; config players change handed settings only in a private copy. Also: the show-pool pass-throughs hand every parameter on under its own name. Also: at its start a show runs its start callback (stopping the replaced show) before its first step; each key's fade-out entry has a clean-up timer of its own. Also: a show started by a condition is stopped by it under the same key, instance dict and show name. Also: the light's hardware-update shortcuts read the remembered fade correctly (shared with C09), so stopped shows leave the hardware as they found it. Also: a show step hands its nominal time to the players it drives. Also: a fade-out starts from what the removed key showed (shared with C09). Also: a stopping show clears its players' contexts before its stop callback runs.",
         technique="expression-shape and CFG dominance on the step path; loop-account guards; key-agreement between register and clear sites",
         ref="4/C17"),
     "C18": dict(
@@ -286,7 +286,7 @@ CLAIMS = {
              "dict/list and is recognised before pair parsing; both socket readers consume the stream only through "
              "readline() and a single readexactly(n) whose n is the integer after the byte marker of the same line, raise "
              "on end of stream and hand out commands one by one in arrival order; one command per line is sent. "
-             "Round-trip equality over all values (floats, nested JSON types) is not decided. Also: read_message strips exactly the line terminator, takes the payload branch iff the byte marker is present, hands text (and payload) to the decoder and returns every decoded command. Also: the decoded command and parameters reach the command handler unchanged (no rebinding or in-place edit in process_bcp_message, the receive loop passes them as decoded); the encoder's type dispatch and the decoder's tag dispatch are exact (one test per branch, earlier tests negated, nothing added) and every non-empty pair with a new name is decoded. Also: the JSON form is dumped with the MPF encoder and no narrowing option. Also: the JSON body is the dump itself and is loaded as it arrived (no rewriting on either side). Also: the decoder is not memoised (it hands out a dict it built: generic MEMO-0); each tagged branch converts the text once, directly to its type. Also: the wire form of every kind of value is decided by evaluating the encoder's string expressions along every path (tag + quote(str(v), '') once; None: the tag alone; strings: encoded once), so the verdict does not depend on how the encoder spells the tagging. Also: the payload marker is the whole parameter `bytes` with its separators, and lines are cut at the marker they were tested for.",
+             "Round-trip equality over all values (floats, nested JSON types) is not decided. Also: read_message strips exactly the line terminator, takes the payload branch iff the byte marker is present, hands text (and payload) to the decoder and returns every decoded command. Also: the decoded command and parameters reach the command handler unchanged (no rebinding or in-place edit in process_bcp_message, the receive loop passes them as decoded); the encoder's type dispatch and the decoder's tag dispatch are exact (one test per branch, earlier tests negated, nothing added) and every non-empty pair with a new name is decoded. Also: the JSON form is dumped with the MPF encoder and no narrowing option. Also: the JSON body is the dump itself and is loaded as it arrived (no rewriting on either side). Also: the decoder is not memoised (it hands out a dict it built: generic MEMO-0); each tagged branch converts the text once, directly to its type. Also: the wire form of every kind of value is decided by evaluating the encoder's string expressions along every path (tag + quote(str(v), '') once; None: the tag alone; strings: encoded once), so the verdict does not depend on how the encoder spells the tagging. Also: the payload marker is the whole parameter `bytes` with its separators, and lines are cut at the marker they were tested for. Also: no function on the **kwargs route into the encoder names a parameter that the framework sends as a message parameter.",
         technique="layer counting of quote/unquote calls per CFG branch; tag table agreement; stream-primitive who-may-call",
         ref="4/C19"),
     "C20": dict(
@@ -302,7 +302,7 @@ CLAIMS = {
              "service and credit-event handlers are registered and removed as a set (by handler identity); on every path "
              "of the unit computation, for every ordering of smallest coin and game price, the credit unit is bounded by "
              "both (ordering-only abstract walk) and units per game is price / unit. The pricing-table arithmetic (tier "
-             "bonuses) as such is not decided. Also: the credit-unit tiers are evaluated against the running total (TIER-1); the per-switch flags reset together (FLAG-20); both credit timers are armed with reset semantics and by every path that adds a fraction (UNIT-7); pricing settings come from the settings controller. Also: every coin through a credit switch is credited, audited and re-arms the time-outs unconditionally, audits are saved on every path; the pricing table is rebuilt from scratch. Also: the coin handlers are registered only after removing a previous registration (exposed defect F20, fixed) and every registered switch handler is remembered for removal; each audit counter is created with the first figure and added to afterwards. Also: a restarted expiry deadline of an expiring machine variable (the credit balance) is written to disk also when the value is unchanged. Also: free or paid play is decided from the live operator setting everywhere; the configured value is only the setting's default. Also: the credit expiry is suspended and resumed on the start and the stop of the game mode itself (every way out of a game).",
+             "bonuses) as such is not decided. Also: the credit-unit tiers are evaluated against the running total (TIER-1); the per-switch flags reset together (FLAG-20); both credit timers are armed with reset semantics and by every path that adds a fraction (UNIT-7); pricing settings come from the settings controller. Also: every coin through a credit switch is credited, audited and re-arms the time-outs unconditionally, audits are saved on every path; the pricing table is rebuilt from scratch. Also: the coin handlers are registered only after removing a previous registration (exposed defect F20, fixed) and every registered switch handler is remembered for removal; each audit counter is created with the first figure and added to afterwards. Also: a restarted expiry deadline of an expiring machine variable (the credit balance) is written to disk also when the value is unchanged. Also: free or paid play is decided from the live operator setting everywhere; the configured value is only the setting's default. Also: the credit expiry is suspended and resumed on the start and the stop of the game mode itself (every way out of a game). Also: no method of the credits mode wipes all its delays (the expiry timers are stopped by name when a game starts).",
         technique="classification + feasible-path bound check of every store; ordering-domain abstract walk of the unit computation; table agreement gate/price; who-may-write; unit check against the config spec",
         ref="4/C20"),
 }
